@@ -255,7 +255,7 @@ def rule_forwarding(ctx: Ctx) -> RuleResult:
         if not (isinstance(a, ast.Assign) and isinstance(a.targets[0], ast.Name) and a.targets[0].id == kp.params[2]):
             rr.add(finding("ORDER", kp, c.stmt, "the wrapped widget's keypress result is not stored back into `key`: a key the child handled is still interpreted as a scroll command", construct="child result not assigned to key"))
     # after the child call, every path to a scroll-action store passes the `key is None` test on its false edge
-    tests = [n for n in cfg.nodes if n.kind == "test" and ast.unparse(n.ast) in ("key is None", "not key")]
+    tests = [n for n in cfg.nodes if n.kind == "test" and ast.unparse(n.ast) in (f"{kp.params[2]} is None", f"not {kp.params[2]}")]
     rr.inst("handled key returns before scrolling", True)
     for c in child:
         reach = set()
@@ -281,6 +281,50 @@ def rule_forwarding(ctx: Ctx) -> RuleResult:
         r2 = cfg.reachable([c], avoid=tests, labels=("n", "T", "F"))
         if any(s in r2 for s in stores):
             rr.add(finding("ORDER", kp, c.stmt, "a scroll action can be set after offering the key to the wrapped widget without testing whether it was handled", construct="no handled test between child keypress and scroll action"))
+    return rr
+
+
+def rule_size_memo(ctx: Ctx) -> RuleResult:
+    """ScrollBar.keypress / mouse_event forward to the wrapped widget with the size remembered in
+    _original_widget_size: it must be the size the widget was last *rendered* at - the full size when no bar is
+    drawn, the narrowed one when it is."""
+    p = ctx.p
+    rr = RuleResult("PAIR", "C20.9", "ScrollBar remembers, for keypress()/mouse_event(), exactly the size it handed to the wrapped widget's render()", floor=3)
+    rn = p.func(f"{SB}.render")
+    funcs = [rn] + [f for f in p.functions.values() if f.parent is rn]
+
+    def stores(f):
+        return [n for n in f.own_nodes() if isinstance(n, ast.Assign) and any(isinstance(t, ast.Attribute) and t.attr == "_original_widget_size" for t in n.targets)]
+
+    def renders(f):
+        return [c for c in f.own_nodes() if isinstance(c, ast.Call) and isinstance(c.func, ast.Attribute) and c.func.attr == "render" and c.args and not (isinstance(c.func.value, ast.Call))]
+
+    outer = stores(rn)
+    n = 0
+    for f in funcs:
+        for c in renders(f):
+            if isinstance(c.func.value, ast.Name) and c.func.value.id in ("canvas",):
+                continue
+            n += 1
+            x = ast.unparse(c.args[0])
+            st = stores(f) or (outer if f is not rn else [])
+            vals = sorted({ast.unparse(s_.value) for s_ in st})
+            rr.inst(f"{short(f)}:{norm(c, 40)}", True, {"render_call": f"{short(f)}: {norm(c, 50)}", "remembered": vals})
+            if vals != [x]:
+                rr.add(finding("PAIR", f, c, f"the wrapped widget is rendered at `{x}` but the size remembered for keypress()/mouse_event() is {vals or 'not stored'}: keys and clicks are handled on a layout of a different width than the one on screen", construct=f"render at {x}, remembered {','.join(vals) or 'nothing'}"))
+    if n < 2:
+        raise AnalysisError("ScrollBar.render: the two render calls of the wrapped widget (with / without bar) were not found")
+    for m in ("keypress", "mouse_event"):
+        fi = p.func(f"{SB}.{m}")
+        du = DefUse(fi)
+        calls = [c for c in fi.own_nodes() if isinstance(c, ast.Call) and isinstance(c.func, ast.Attribute) and c.func.attr == m and c.args]
+        rr.inst(f"{m} forwards the remembered size", True)
+        for c in calls:
+            t = du.text(c.args[0], du.node_of(c))
+            if t != "self._original_widget_size":
+                rr.add(finding("PAIR", fi, c, f"{m}() forwards size `{t}` to the wrapped widget, not the size it was rendered at (self._original_widget_size)", construct=f"{m} forwards {t}"))
+        if not calls:
+            raise AnalysisError(f"ScrollBar.{m} no longer forwards to the wrapped widget")
     return rr
 
 
@@ -334,6 +378,7 @@ def run(ctx: Ctx):
         rule_scrollbar_parts(ctx),
         rule_forwarding(ctx),
         rule_query_size(ctx),
+        rule_size_memo(ctx),
         fresh.run_fresh(p, "C20.7", ["urwid.canvas"], floor=30),
         inv.run_inv(p, "C20.6", floor_classes=2, floor_nontrivial=1, exceptions=INV_EXCEPTIONS, only_classes={"Scrollable", "ScrollBar"}),
         fwd.run_fwd(p, "C20.8", ("urwid.widget.scrollable", "urwid.widget.listbox"), floor=20, description="the scrolling protocol (get_scrollpos, rows_max, get_first_visible_pos, ...) and the renderers pass the focus flag on: the position is computed for the rendering that is shown"),
@@ -357,6 +402,9 @@ MUTANTS = [
     Mut("twin-top-nudge-room-reordered", _F, "ScrollBar.render", "if top_height == 0 and top_weight > 0 and maxrow > thumb_height:", "if thumb_height < maxrow and top_height == 0 and top_weight > 0:", twin=True),
     Mut("listbox-scrollpos-ignores-focus", "urwid/widget/listbox.py", "ListBox.get_scrollpos", "self.calculate_visible(self._rendered_size, focus)", "self.calculate_visible(self._rendered_size)", "FOCUS-FWD|widget.listbox.ListBox.get_scrollpos"),
     Mut("twin-listbox-scrollpos-focus-keyword", "urwid/widget/listbox.py", "ListBox.get_scrollpos", "self.calculate_visible(self._rendered_size, focus)", "self.calculate_visible(self._rendered_size, focus=focus)", twin=True),
+    Mut("size-memo-narrow-without-bar", _F, "ScrollBar.render", "            self._original_widget_size = size\n            return ow.render(size, focus)", "            self._original_widget_size = ow_size\n            return ow.render(size, focus)", "PAIR|widget.scrollable.ScrollBar.render"),
+    Mut("twin-size-memo-also-outside", _F, "ScrollBar.render", "        sb_width = maxcol - ow_size[0]\n", "        sb_width = maxcol - ow_size[0]\n        self._original_widget_size = ow_size\n", twin=True, note="the nested renderers still store the size they use afterwards"),
+    Mut("keypress-forwards-full-size", _F, "ScrollBar.keypress", "return self._original_widget.keypress(self._original_widget_size, key)", "return self._original_widget.keypress(size, key)", "PAIR|widget.scrollable.ScrollBar.keypress"),
     Mut("twin-ensure-bounds-reordered", _F, "Scrollable._adjust_trim_top", "return max(0, min(canv_rows - maxrow, new_trim_top))", "return max(0, min(new_trim_top, canv_rows - maxrow))", twin=True),
     Mut("twin-bottom-reordered", _F, "ScrollBar.render", "bottom_height = maxrow - thumb_height - top_height", "bottom_height = maxrow - top_height - thumb_height", twin=True),
     Mut("twin-mouse-row-direct", _F, "Scrollable.mouse_event", "            row += self._trim_top\n            return ow.mouse_event(ow_size, event, button, col, row, focus)", "            return ow.mouse_event(ow_size, event, button, col, row + self._trim_top, focus)", twin=True),
